@@ -34,7 +34,19 @@ func (e *specEnv) fail(format string, args ...any) {
 	panic(unsupportedErr{"spec: " + fmt.Sprintf(format, args...)})
 }
 
-func (x *Unit) specBool(st *State, c *Clause, extra map[string]Term) Term {
+func (x *Unit) specBool(st *State, c *Clause, extra map[string]Term) (res Term) {
+	if x.pass == 1 {
+		// discovery pass: obligations are discarded; tolerate references to components that do not exist yet
+		defer func() {
+			if r := recover(); r != nil {
+				if _, ok := r.(unsupportedErr); ok {
+					res = True
+					return
+				}
+				panic(r)
+			}
+		}()
+	}
 	env := x.unitEnv(st, extra)
 	t := env.eval(c.Expr)
 	if t.Sort != SBool {
@@ -142,7 +154,11 @@ func (e *specEnv) lookup(name string) (Term, bool) {
 			if x.isParam[v] || x.FU.Lit != nil {
 				return x.readVar(e.cur, v), true
 			}
-			e.fail("variable %s is not bound at this point", name)
+			var have []string
+			for o := range e.cur.vars {
+				have = append(have, fmt.Sprintf("%s@%d", o.Name(), o.Pos()))
+			}
+			e.fail("variable %s (decl pos %d) is not bound at this point; bound: %v dead=%v", name, v.Pos(), have, e.cur.dead())
 		}
 		if c, ok := obj.(*types.Const); ok {
 			if t, ok := x.constTerm(types.TypeAndValue{Type: c.Type(), Value: c.Val()}); ok {
@@ -492,7 +508,9 @@ func (e *specEnv) callSpec(s *SCall) Term {
 			e.fail("old() not available here")
 		}
 		ne := *e
-		ne.cur = e.old
+		// heap of the old state, local variables of the current one
+		ne.cur = &State{pc: e.cur.pc, vars: e.cur.vars, heap: e.old.heap, epoch: e.old.epoch}
+		ne.paramOld = true
 		return ne.eval(s.Args[0])
 	case "len":
 		v := e.eval(s.Args[0])
